@@ -182,6 +182,63 @@ class Lines(Space):
         return Outcome(viol=viol, tags=["relayout-admitted"])
 
 
+class InnerGaps(Space):
+    """Constructs that hold whitespace of their own (link text, reference labels, emphasis, code spans): the gap INSIDE the construct is
+    re-laid-out (two spaces, a soft break, a soft break plus continuation indent); the output must be that of the one-space layout."""
+
+    prop = "C03"
+    name = "inner-gaps"
+    FORMS = ["[contributor{G}guide]", "[contributor{G}guide][]", "[the{G}text][contributor guide]", "![contributor{G}guide]", "[the text][contributor{G}guide]",
+             "[link{G}text](http://u.v/w)", "![alt{G}text](u)", "*emph{G}text*", "**strong{G}text**", "`code{G}span`", "~~del{G}text~~", "[^note] and{G}more"]
+    GAPS = [" ", "  ", "\n", "\n  "]
+    CTX = [("", ""), ("- ", "  "), ("> ", "> "), ("1. ", "   ")]
+    TAIL = "\n\n[contributor guide]: http://u.v/guide\n\n[^note]: a note\n"
+
+    def __init__(self, tier):
+        self.widths = (88, 12) if tier == "quick" else (0, 1, 12, 20, 88)
+        self.floors = {"relayout-admitted": 100}
+
+    def cases(self):
+        for f in range(len(self.FORMS)):
+            for g in range(1, len(self.GAPS)):
+                for c in range(len(self.CTX)):
+                    for w in self.widths:
+                        for sem in (False, True):
+                            yield (f, g, c, w, sem)
+
+    def text(self, case, base=False):
+        f, g, c, w, sem = case
+        first, cont = self.CTX[c]
+        para = "zz yy " + self.FORMS[f].replace("{G}", " " if base else self.GAPS[g]) + " ww end."
+        lines = para.split("\n")
+        return first + lines[0] + "".join("\n" + cont + ln for ln in lines[1:]) + self.TAIL
+
+    def describe(self, case):
+        return {"text": self.text(case), "width": case[3], "semantic": case[4]}
+
+    def smaller(self, case):
+        f, g, c, w, sem = case
+        if c:
+            yield (f, g, 0, w, sem)
+        if sem:
+            yield (f, g, c, w, False)
+        if w != 88:
+            yield (f, g, c, 88, sem)
+
+    def evaluate(self, case):
+        f, g, c, w, sem = case
+        t, base = self.text(case), self.text(case, base=True)
+        if readers.norm_a(t) != readers.norm_a(base):
+            return Outcome(tags=["relayout-rejected-by-precondition"])
+        viol = []
+        for typo in (False, True):
+            a, b = fmt(base, w, sem, typo), fmt(t, w, sem, typo)
+            if a != b:
+                viol.append(("R1:" + classify(a, b), {"base": base, "relayout": t, "out_base": a, "out_relayout": b, "width": w, "semantic": sem, "typography": typo}))
+                break
+        return Outcome(viol=viol, tags=["relayout-admitted"])
+
+
 def spaces(tier):
     q = tier == "quick"
     ctx = docspace.contexts(1, ("ul", "ol10", "bq", "fnlong"), (None,))
@@ -191,4 +248,4 @@ def spaces(tier):
     para.hazard_rep = TOK.index("-")
     tag = TOK.index("{% t %}")
     para.class_rep = {TOK.index(t): tag for t in ("{% /t %}", "<!-- c -->", "{{ v }}")}
-    return [para, Lines(2 if q else 3)]
+    return [para, Lines(2 if q else 3), InnerGaps(tier)]
